@@ -15,7 +15,7 @@ Require Import MTX.Lib.IntWrap.
 Import ListNotations.
 Local Open Scope Z_scope.
 
-Definition bytes := list Z.
+Notation bytes := (list Z) (only parsing).
 
 Inductive res (A : Type) := Ok (a : A) | Panic.
 Arguments Ok {A} _.
